@@ -57,7 +57,7 @@ static void check_peel(int n, const EL &es) {
         if (seenE != origE) why = why.empty() ? "edge set not preserved" : why;
         set<id_type> allN; for (auto &p : count) allN.insert(p.first);
         if (allN != origN) why = why.empty() ? "node set not preserved" : why;
-    } catch (std::exception &e) { ctx.count("aborted_by_exception"); return; } catch (vpsc::CriticalFailure &f) { ctx.count("aborted_by_assert"); return; }
+    } catch (std::exception &e) { ctx.library_abort(std::string("exception: ") + e.what(), desc); return; } catch (vpsc::CriticalFailure &f) { ctx.library_abort(f.what(), desc); return; }
     if (!why.empty()) ctx.violation("peel_partition", {}, desc, why);
 }
 static void check_comps(int n, const EL &es) {
@@ -78,7 +78,7 @@ static void check_comps(int n, const EL &es) {
         for (auto &p : g->getNodeLookup()) if (nc[p.first] != 1) why = "node not in exactly one component";
         if (ne != g->getNumEdges()) why = "edge count differs";
         if (cc.size() > 1) ctx.count("nontrivial");
-    } catch (std::exception &e) { ctx.count("aborted_by_exception"); return; } catch (vpsc::CriticalFailure &f) { ctx.count("aborted_by_assert"); return; }
+    } catch (std::exception &e) { ctx.library_abort(std::string("exception: ") + e.what(), desc); return; } catch (vpsc::CriticalFailure &f) { ctx.library_abort(f.what(), desc); return; }
     if (!why.empty()) ctx.violation("components_partition", {}, desc, why);
 }
 // rooted labelled trees via Pruefer-free enumeration: parent[i] < i for i>=1 (every rooted tree shape occurs)
@@ -93,7 +93,7 @@ static void check_tree_layout(int n, const vector<int> &parent, CardinalDir dir,
         for (size_t i = 0; i < c.size(); i++) { if (!(c[i].x == c[i].x) || std::isinf(c[i].x) || !(c[i].y == c[i].y)) why = "non-finite coordinate";
             for (size_t j = i + 1; j < c.size(); j++) { double ox = (d[i].first + d[j].first) / 2 - fabs(c[i].x - c[j].x), oy = (d[i].second + d[j].second) / 2 - fabs(c[i].y - c[j].y); if (ox > 1e-6 && oy > 1e-6) why = mcx::fmt("nodes %zu and %zu on top of each other", i, j); } }
         ctx.count("nontrivial");
-    } catch (std::exception &e) { ctx.count("aborted_by_exception"); return; } catch (vpsc::CriticalFailure &f) { ctx.count("aborted_by_assert"); return; }
+    } catch (std::exception &e) { ctx.library_abort(std::string("exception: ") + e.what(), desc); return; } catch (vpsc::CriticalFailure &f) { ctx.library_abort(f.what(), desc); return; }
     if (!why.empty()) ctx.violation("tree_nodes_coincide", {}, desc, why);
 }
 struct Sg { double ax, ay, bx, by; };
@@ -128,7 +128,7 @@ static void check_planarise(int n, const EL &es) {
                 if (!found) { why = mcx::fmt("former neighbours %u,%u no longer connected through new nodes", oe.first, oe.second); break; }
             }
         }
-    } catch (std::exception &e) { ctx.count("aborted_by_exception"); return; } catch (vpsc::CriticalFailure &f) { ctx.count("aborted_by_assert"); return; }
+    } catch (std::exception &e) { ctx.library_abort(std::string("exception: ") + e.what(), desc); return; } catch (vpsc::CriticalFailure &f) { ctx.library_abort(f.what(), desc); return; }
     if (!why.empty()) ctx.violation("planarise", {}, desc, why);
 }
 
